@@ -25,7 +25,9 @@ AMOUNTS = [-250.5, -20.0, 0.0, 0.01, 5.0, 49.99, 50.0, 99.5, 100.0, 150.0, 1000.
 DATES = [datetime.date(2024, 1, 15), datetime.date(2024, 2, 29), datetime.date(2024, 12, 31), datetime.date(2025, 3, 8),
          datetime.date(2025, 12, 21), None]
 FIELDS = [None, {}, {'kind': 'ACH', 'memo': 'PROJ:X1 ref', 'proj': ' Px1 '}, {'kind': 'wire', 'memo': '', 'proj': ''},
-          {'kind': 'ach', 'proj': 'Q-7'}, {'memo': 'PROJ:zz9', 'code': '77'}]
+          {'kind': 'ach', 'proj': 'Q-7'}, {'memo': 'PROJ:zz9', 'code': '77'},
+          # values with runs of blanks / a tab inside: a {tag} carries the value as it is (trimmed, lower-cased)
+          {'kind': 'ACH  Wire', 'memo': 'PROJ:Y2  two\tgaps', 'proj': 'P  9\tq'}]
 SOURCES = ['Card', 'Bank', None]
 LOCS = [None, 'Seattle WA']
 
@@ -225,9 +227,11 @@ def gen_file(rnd, mode, focus):
         if rnd.random() < (0.5 if focus == 'c09' else 0.2):
             prio = rnd.choice([0, -10, 40, 50, 60, 100, 51])
         fields = []
-        for fn in rnd.sample(['note', 'big', 'bad'], rnd.choice([0, 0, 0, 1, 2])):
+        for fn in rnd.sample(['note', 'big', 'bad', 'marks', 'caps'], rnd.choice([0, 0, 0, 1, 2])):
+            # (a field may evaluate to a list - of several values, of one, of none)
             fields.append((fn, {'note': 'extract(field.memo, "PROJ:(\\\\w+)")', 'big': 'amount > 100',
-                                'bad': 'len(amount)'}[fn]))
+                                'bad': 'len(amount)', 'marks': '[c for c in description if c == "#"]',
+                                'caps': '[c for c in description if c == "Z" or c == "Q"]'}[fn]))
         r = {'name': 'Shop' if dup_names else 'Rule %d' % (k + 1),
              'match': text,
              'cat': rnd.choice(CATS) if is_cat else '',
@@ -415,6 +419,17 @@ def record_batch(seed, nfiles, focus, base_id=0):
             f = gen_file(rnd, mode, focus)
             txns = gen_txns(rnd, rnd.choice([4, 6, 8]), bool(f['xform']), _THEME[0] or TOK)
             n = len(f['rules'])
+            # classification is TOTAL: whatever a rule's expressions do for one transaction, match() / normalize_merchant return.
+            # An exception of the implementation language escaping from them is reported as such (its file yields no records)
+            try:
+                for k in range(n):
+                    for t in txns:
+                        reference(f, k, t)
+                for path in ('engine', 'normalize'):
+                    observe_file(f, list(range(n)), txns, path, random.Random(1), tmpdir)
+            except (IndexError, TypeError, KeyError, AttributeError, ZeroDivisionError, ValueError, AssertionError) as ex:
+                names.append(('!raised', '%s: %s' % (type(ex).__name__, ex), render(f, list(range(n)), None)))
+                continue
             ref = [[None] * len(txns) for _ in range(n)]
             for k in range(n):
                 for j, t in enumerate(txns):
